@@ -4,7 +4,10 @@
 use chrono::prelude::*;
 use serde::Serialize;
 use std::marker::PhantomData;
+#[cfg(not(prqlc_verif))]
 use std::{sync::RwLock, time::SystemTime};
+#[cfg(prqlc_verif)]
+use {crate::verif_sync::RwLock, std::time::SystemTime};
 use strum_macros::AsRefStr;
 
 use crate::ir::{decl, pl, rq};
